@@ -92,8 +92,9 @@ where
     };
     let slack = T::from_f64(16.0).unwrap() * T::epsilon() * (eps + scale);
     let (mut wrong, mut at_eps) = (false, false);
-    // relations with d == eps exactly (query != point): how many exist, how many were dropped
-    let (mut n_boundary, mut n_boundary_missed) = (0usize, 0usize);
+    // geometrically distinct relations with d == eps exactly: how many exist, how many were dropped
+    let mut boundary: BTreeMap<(Vec<u64>, Vec<u64>), bool> = BTreeMap::new();
+    let bits = |v: &Vec<T>| -> Vec<u64> { v.iter().map(|x| f(*x).to_bits()).collect() };
     for q in probes {
         let got: Vec<usize> = match guard(|| tree.find_radius(q, eps).map(|v| v.iter().map(|x| x.0).collect::<Vec<usize>>())) {
             Ok(Ok(v)) => v,
@@ -113,10 +114,8 @@ where
                 wrong = true;
             }
             if d == eps {
-                n_boundary += 1;
-                if seen[j] == 0 {
-                    n_boundary_missed += 1;
-                }
+                let e = boundary.entry((bits(q), bits(&pts[j]))).or_insert(true);
+                *e = *e && seen[j] == 0;
             }
             if seen[j] == 0 && inside {
                 if d >= eps - slack {
@@ -129,7 +128,7 @@ where
     }
     if wrong {
         Some("covertree/radius-query-wrong")
-    } else if at_eps && n_boundary >= 6 && n_boundary_missed == n_boundary {
+    } else if at_eps && boundary.len() >= 6 && boundary.values().all(|missed| *missed) {
         // not the occasional rounding loss: the closed ball is treated as open
         Some("covertree/radius-query-drops-every-point-at-eps")
     } else if at_eps {
